@@ -239,6 +239,10 @@ func (c *c13Ctx) doOp(kv kvAPI, m *KV, inTx bool, readOnly bool) bool {
 
 func runC13(rc *RunCtx) {
 	s, tp := rc.S, rc.S.Tape
+	if tp.Pick(5) == 4 {
+		inBubble(rc, func() { runC13Concurrent(rc) })
+		return
+	}
 	bottoms := []string{"simdisk", "simdisk-plain", "inmem", "inmem-plain", "simdisk", "inmem", "file", "fsm"}
 	o := StackOpts{Bottom: bottoms[tp.Pick(len(bottoms))]}
 	o.Encoding = tp.Pick(2) == 1
@@ -462,4 +466,149 @@ func (c *c13Ctx) resync() {
 		m.Put(k, v)
 	}
 	c.model = m
+}
+
+// ---- concurrent mode: 2-3 tasks through the cache over the gated simulated
+// disk, storage errors beneath the cache; oracle: every read returns nil or a
+// value some put wrote under that very key, and at quiescence the stack
+// (through its cache) agrees key by key with a cache-less stack over the same
+// disk - i.e. no stale or phantom cache entry survives. ----
+
+func runC13Concurrent(rc *RunCtx) {
+	s, tp := rc.S, rc.S.Tape
+	o := StackOpts{Bottom: []string{"simdisk", "simdisk-plain"}[tp.Pick(2)], CacheSize: []int{4, 8, 64, 300}[tp.Pick(4)]}
+	o.Encoding = tp.Pick(2) == 1
+	if tp.Pick(2) == 1 {
+		o.Barrier = true
+		o.Views = []string{"logical/"}
+	}
+	faulty := tp.Pick(2) == 1
+	rc.Cfg("stack", "concurrent:"+o.String())
+	rc.Cfg("faults", faulty)
+	st, err := BuildStack(s, o)
+	if err != nil {
+		panic(err)
+	}
+	st.Disk.PostGate = tp.Pick(3) != 0
+	rc.Cfg("post_gate", st.Disk.PostGate)
+	keys := []string{"a", "b", "d/x"}
+	written := map[string]map[string]bool{}
+	for _, k := range keys {
+		written[k] = map[string]bool{}
+	}
+	nTasks := 2 + tp.Pick(2)
+	type cop struct {
+		kind string // put get del tx
+		key  string
+		val  string
+		key2 string
+	}
+	nval := 0
+	scripts := make([][]cop, nTasks)
+	for t := range scripts {
+		for j := 0; j < 3+tp.Pick(4); j++ {
+			k := keys[tp.Pick(len(keys))]
+			switch tp.Pick(6) {
+			case 0, 1:
+				nval++
+				v := fmt.Sprintf("v%d", nval)
+				written[k][v] = true
+				scripts[t] = append(scripts[t], cop{kind: "put", key: k, val: v})
+			case 2, 3:
+				scripts[t] = append(scripts[t], cop{kind: "get", key: k})
+			case 4:
+				scripts[t] = append(scripts[t], cop{kind: "del", key: k})
+			default:
+				if st.Begin != nil {
+					nval++
+					v := fmt.Sprintf("v%d", nval)
+					k2 := keys[tp.Pick(len(keys))]
+					written[k2][v] = true
+					scripts[t] = append(scripts[t], cop{kind: "tx", key: k, key2: k2, val: v})
+				}
+			}
+		}
+	}
+	var hist []string
+	bad := ""
+	if faulty {
+		s.SetFaults(60, 3, FaultErrNA)
+	}
+	s.SetControlled()
+	for t := range scripts {
+		t := t
+		name := fmt.Sprintf("c%d", t)
+		s.Go(name, func() {
+			for _, op := range scripts[t] {
+				switch op.kind {
+				case "put":
+					err := st.KV.Put(op.key, []byte(op.val))
+					s.mu.Lock()
+					hist = append(hist, fmt.Sprintf("%s put %s=%s -> %v", name, op.key, op.val, err == nil))
+					s.mu.Unlock()
+				case "del":
+					err := st.KV.Delete(op.key)
+					s.mu.Lock()
+					hist = append(hist, fmt.Sprintf("%s del %s -> %v", name, op.key, err == nil))
+					s.mu.Unlock()
+				case "get":
+					v, ok, err := st.KV.Get(op.key)
+					s.mu.Lock()
+					hist = append(hist, fmt.Sprintf("%s get %s = %q %v %v", name, op.key, v, ok, err == nil))
+					if err == nil && ok && !written[op.key][string(v)] && bad == "" {
+						bad = fmt.Sprintf("get %q returned %q, which was never written under that key", op.key, v)
+					}
+					s.mu.Unlock()
+				case "tx":
+					tx, err := st.Begin(false)
+					if err != nil {
+						continue
+					}
+					_, _, err = tx.Get(op.key)
+					if err == nil {
+						err = tx.Put(op.key2, []byte(op.val))
+					}
+					if err == nil {
+						err = tx.Commit()
+					} else {
+						tx.Rollback()
+					}
+					s.mu.Lock()
+					hist = append(hist, fmt.Sprintf("%s tx get %s put %s=%s -> %v", name, op.key, op.key2, op.val, err == nil))
+					s.mu.Unlock()
+				}
+			}
+		})
+	}
+	s.Run()
+	s.SetFaults(0, 0)
+	s.PassThrough()
+	if s.Trunc {
+		return
+	}
+	if bad != "" {
+		s.Violate("C13", "read-returned-unwritten-value", map[string]any{"stack": st.Name}, "stack %s: %s; history %v", st.Name, bad, hist)
+		return
+	}
+	// cache-less twin over the same disk
+	o2 := o
+	o2.CacheSize = 0
+	twin := &Stack{Disk: st.Disk, Bottom: st.Bottom, Barrier: st.Barrier, barrierKey: st.barrierKey}
+	if err := layer(twin, st.Bottom, o2); err != nil {
+		panic(err)
+	}
+	for _, k := range keys {
+		v1, ok1, err1 := st.KV.Get(k)
+		v2, ok2, err2 := twin.KV.Get(k)
+		if err1 != nil || err2 != nil {
+			panic(fmt.Sprint("final read: ", err1, err2))
+		}
+		if ok1 != ok2 || string(v1) != string(v2) {
+			s.Violate("C13", "cache-incoherent-at-quiescence", map[string]any{"faulty": s.Faults["err-na"] > 0, "transactional": st.Begin != nil},
+				"stack %s: at quiescence get %q through the cache = (%q,%v) but the store holds (%q,%v); history %v", st.Name, k, v1, ok1, v2, ok2, hist)
+			return
+		}
+	}
+	rc.Res.Sample = map[string]any{"stack": st.Name, "history": tail(hist, 16)}
+	rc.Res.StateSig = "conc/" + st.Name
 }
